@@ -80,7 +80,7 @@ class VecMisc(Harness):
         self.bounds = {"elements": f"0..{maxn}", "dtype": KIND_DTYPE[kind]}
         self.symbolic = ["all elements", "arguments"]
         self.choice_dims = ["length"]
-        self.goals = [f"vector.py:Vector.{method}"]
+        self.goals = [f"vector.py:Vector.{'as_datetime' if method == 'as_datetime_ns' else method}"]
     def build(self, ctx):
         n = choice("n", range(self.maxn + 1))
         k = self.kind
@@ -174,4 +174,8 @@ def harnesses(tier):
     for m in ("as_float", "as_object", "as_boolean"):
         hs.append(VecMisc(m, "i", N))
     hs.append(VecMisc("as_string", "T", N))
+    # conversions that have nothing to convert still return new data
+    for m, k in (("as_float", "f"), ("as_integer", "i"), ("as_boolean", "b"), ("as_object", "O"), ("as_date", "D"), ("as_datetime", "us"), ("as_datetime", "D"),
+                 ("as_datetime_ns", "ns")):
+        hs.append(VecMisc(m, k, N))
     return hs
